@@ -17,6 +17,7 @@ void vf_obs(u64 v){ }
   for (u32 i = 0; i < n; i++) p[i] = vf_u##W(); return (u8*)p; }
 VF_BUF(8) VF_BUF(16) VF_BUF(32) VF_BUF(64)
 void vf_free(u8* p){ free(p); }
+u8* vf_alloc(u32 n){ u8* p = (u8*)malloc(n); __CPROVER_assume(p != 0); return p; }
 #else
 #include <stdio.h>
 static FILE *vf_tape;
@@ -39,5 +40,6 @@ void vf_obs(u64 v){ printf("O %llu\n", (unsigned long long)v); }
   for (u32 i = 0; i < n; i++) p[i] = vf_u##W(); return (u8*)p; }
 VF_BUF(8) VF_BUF(16) VF_BUF(32) VF_BUF(64)
 void vf_free(u8* p){ free(p); }
+u8* vf_alloc(u32 n){ return (u8*)malloc(n); }
 #endif
 #endif
